@@ -70,6 +70,9 @@ class Profile:
         n_off = rng.randint(0, max(0, len(fams) // 3))
         k["off"] = sorted(rng.sample(fams, n_off)) if n_off else []
         self.tune_knobs(k, rng)
+        if self.swarm_weights:
+            # swarm testing: every run emphasises a different random part of the workload
+            k["wscale"] = {f: rng.choice([0.25, 1, 1, 1, 4]) for f in fams if f not in self.never_off}
         if self.tier == "thorough" and rng.random() < 0.5:
             # deeper bounds in the thorough tier: longer histories, more entities per container
             k["n_ops"] = min(90, int(k["n_ops"] * rng.choice([1.5, 2, 2.5])))
@@ -81,17 +84,29 @@ class Profile:
         pass
 
     # ---------------------------------------------------------------- generation
+    rich_start_rate = 0.0      # share of runs that begin from profiles.rich_start()
+
     def setup_ops(self, run, rng):
-        return [{"op": "open", "path": "a.nix", "mode": "ow", "compr": run.knobs["file_compr"],
-                 "auto_ts": run.knobs["auto_ts"]}]
+        ops = [{"op": "open", "path": "a.nix", "mode": "ow", "compr": run.knobs["file_compr"],
+                "auto_ts": run.knobs["auto_ts"]}]
+        if self.rich_start_rate and rng.random() < self.rich_start_rate:
+            from .profiles import rich_start
+            ops += rich_start(rng)
+        return ops
 
     late_ops = ()          # op kinds held back during the build phase of a run
     build_fraction = 0.0
 
+    swarm_weights = False
+
     def op_weights(self, run):
+        w = self.weights
+        ws = run.knobs.get("wscale")
+        if ws:
+            w = {k: v * ws.get(k, 1) for k, v in w.items()}
         if self.late_ops and run.step < self.build_fraction * run.knobs["n_ops"]:
-            return {k: (v * 0.05 if k in self.late_ops else v) for k, v in self.weights.items()}
-        return self.weights
+            return {k: (v * 0.05 if k in self.late_ops else v) for k, v in w.items()}
+        return w
 
     def next_op(self, run):
         rng = run.rng
